@@ -1,6 +1,6 @@
 #!/bin/bash
 # Builds the framework from files on disk only (offline) and warms the build cache.
-set -e
+set -e -o pipefail
 export GOFLAGS=-mod=mod GOPROXY=off GOSUMDB=off GOTOOLCHAIN=local PATH=/opt/veriftools/go1.26.8/bin:$PATH
 cd "$(dirname "$0")/sim"
 mkdir -p bin
